@@ -36,6 +36,7 @@ type xStep struct {
 	Tip  int      `json:"tip"`
 	St   []string `json:"st"`
 	Conn bool     `json:"conn"`
+	Raw  bool     `json:"raw"` // env reply: the node ignores the stop hash
 }
 
 type xBeh struct {
@@ -46,6 +47,7 @@ type xBeh struct {
 		Forbid []int  `json:"forbid"`
 		Cap    int    `json:"cap"`
 		Name   string `json:"name"`
+		Findings []string `json:"findings"`
 	} `json:"scn"`
 	Final *struct {
 		St      []string `json:"st"`
@@ -292,6 +294,17 @@ func opSyncExp() error {
 				exp = append(exp, b.Hist[j].Sent...)
 				last = b.Hist[j]
 			}
+			storedH := func() map[int]int {
+				rows, _ := st.Rows()
+				m := map[int]int{}
+				for i := 0; i <= nb; i++ {
+					if r, ok := rows[hashes[i].String()]; ok {
+						m[i] = int(r.Height)
+					}
+				}
+				return m
+			}
+			before := storedH()
 			switch e.Op {
 			case "start":
 				release(eng)
@@ -365,6 +378,9 @@ func opSyncExp() error {
 					}
 					drifted = true
 					continue
+				}
+				if e.Raw {
+					rq.Stop = -1
 				}
 				ids := proto(node.best, *rq)
 				if fmt.Sprint(ids) != fmt.Sprint(e.Ids) && !(len(ids) == 0 && len(e.Ids) == 0) && !drifted {
@@ -444,6 +460,38 @@ func opSyncExp() error {
 			}
 			if wantClosed && !closed {
 				miss(k, "sync-contain", fmt.Sprintf("after %s(%v) the engine disconnects the node (forbidden header / checkpoint contradiction)", e.Op, e.Ids), "still connected")
+			}
+			// C07, stated independently of SyncExp.tla's mechanics: a node that delivered a NEW header which the store now holds
+			// at the height of a configured checkpoint, and which is not that checkpoint, must have been disconnected
+			if e.Op == "reply" || (e.Op == "announce" && e.How == "headers") {
+				after := storedH()
+				cpAt := map[int]int{}
+				for _, c := range b.Scn.Cps {
+					cpAt[len(chainOf(c))-1] = c
+				}
+				delivered := e.Ids
+				if e.Op == "announce" {
+					delivered = []int{e.B}
+				}
+				for _, id := range delivered {
+					_, had := before[id]
+					h, has := after[id]
+					if c, isCp := cpAt[h]; has && !had && isCp && c != id {
+						res.Stats["checkpoint-contradictions-delivered"]++
+						if !closed && !wantClosed {
+							listed := false
+							for _, f := range b.Scn.Findings {
+								listed = listed || f == "X2-checkpoint-compared-only-at-cursor"
+							}
+							if listed {
+								res.Stats["finding-witness:X2-checkpoint-compared-only-at-cursor"]++
+							} else {
+								miss(k, "sync-contain", fmt.Sprintf("the node delivered block %d, stored at checkpoint height %d where the checkpoint is block %d: it is disconnected", id, h, c), "still connected")
+							}
+						}
+						break
+					}
+				}
 			}
 			if !wantClosed && closed && e.Op != "close" && !drifted {
 				miss(k, "sync-drift", fmt.Sprintf("after %s the node stays connected", e.Op), "disconnected by the engine")
